@@ -86,6 +86,7 @@ def evaluate(case):
                 ("/", name, epoch, version, release, ""), ("//", name, epoch, version, release, ".rpm"), ("./", name, epoch, version, release, ""),
                 ("/srv/mirror.rpms/pool/" + "sub-dir.1/" * 30, name, epoch, version, release, ".rpm"),
                 ("pool/x86_64.rpm.d/", name, epoch, version, release, ".rpm"),
+                ("Fedora 40/Every thing/", name, epoch, version, release, ".rpm"), ("tab\there/", name, epoch, version, release, ""),
                 ("", name + ".rpm-macros", epoch, version, release, ".rpm"),
                 ("", name, epoch, version, release + ".rpmfusion", ".rpm"),
                 ("a/", name, 10 ** 10 + epoch, version, release, ""),
@@ -123,7 +124,7 @@ def s_chars(toks, rot, arches):
 
 def run(ctx):
     ctx.rule = ("TLC enumerates part tuples (names of 1-3 dash-separated segments over letter/digit/./_/+ incl. all-digit "
-                "segments; epochs none/1/2 digits; versions/releases over the 7 classes; 5 directory prefixes incl. dashes, "
+                "segments; epochs none/1/2 digits; versions/releases over the 7 classes; 6 directory prefixes incl. dashes, blanks, "
                 "dots and ':'; with/without .rpm; 3 model arches rotated over the whole table), checks ParseRef(Format(p)) = p "
                 "and the canonical fixed point on the model, and emits each string; the real parse_nvra / Rpms.add must return "
                 "the parts the string was built from. non-trivial = distinct (token string, concretisation)")
